@@ -49,12 +49,8 @@ type c08Plain struct{ r *bytes.Reader }
 
 func (p c08Plain) Read(b []byte) (int, error) { return p.r.Read(b) }
 
-func c08NewJail(t *rapid.T, base0 string, n int) (*jail.Jail, *storage.LocalBackend) {
-	base := filepath.Join(base0, fmt.Sprintf("c%d", n))
-	if err := os.Mkdir(base, 0o700); err != nil {
-		t.Fatalf("setup: %v", err)
-	}
-	j, err := jail.New(base, rapid.Bool().Draw(t, "rootPartDecoy"))
+func c08Reset(t *rapid.T, j *jail.Jail) (jail.Snapshot, *storage.LocalBackend) {
+	snap, err := j.Reset(rapid.Bool().Draw(t, "rootPartDecoy"))
 	if err != nil {
 		t.Fatalf("setup: %v", err)
 	}
@@ -62,20 +58,19 @@ func c08NewJail(t *rapid.T, base0 string, n int) (*jail.Jail, *storage.LocalBack
 	if err != nil {
 		t.Fatalf("setup: %v", err)
 	}
-	return j, b
+	return snap, b
 }
 
 // Manifest entries: the peer puller hands entry.Path to StatFile / ReadToAt /
 // WriteReader / AppendReader / Delete of the local backend.
 func TestVerifC08_ManifestPaths(t *testing.T) {
-	base0 := t.TempDir()
 	ctx := context.Background()
-	caseNo := 0
+	j, err := jail.New(t.TempDir(), false)
+	if err != nil {
+		t.Fatalf("setup: %v", err)
+	}
 	rapid.Check(t, func(t *rapid.T) {
-		caseNo++
-		j, b := c08NewJail(t, base0, caseNo)
-		defer os.RemoveAll(j.Base)
-		snap, _ := j.Snap()
+		snap, b := c08Reset(t, j)
 		for i := 0; i < 4; i++ {
 			key := jail.GenKey(t, j.DecoyPaths())
 			if err := raft.ValidateManifestPath(key); err != nil {
@@ -141,18 +136,17 @@ var c08SpokeTokens = []string{"spoke1", "edge-a", "a..b", "a.b", "x\\y", "a/b", 
 // Edge-sync uploads: the whole Receive path (staging, append, promote) with
 // hostile spoke ids and source paths.
 func TestVerifC08_EdgeSyncPaths(t *testing.T) {
-	base0 := t.TempDir()
 	ctx := context.Background()
-	caseNo := 0
+	j, err := jail.New(t.TempDir(), false)
+	if err != nil {
+		t.Fatalf("setup: %v", err)
+	}
 	rapid.Check(t, func(t *rapid.T) {
-		caseNo++
-		j, b := c08NewJail(t, base0, caseNo)
-		defer os.RemoveAll(j.Base)
+		snap, b := c08Reset(t, j)
 		rcv, err := NewReceiver(ReceiverConfig{Backend: b, Logger: zerolog.Nop()})
 		if err != nil {
 			t.Fatalf("setup: %v", err)
 		}
-		snap, _ := j.Snap()
 		for i := 0; i < 3; i++ {
 			spoke := rapid.SampledFrom(c08SpokeTokens).Draw(t, "spoke")
 			if rapid.IntRange(0, 5).Draw(t, "rawSpoke") == 0 {
